@@ -247,6 +247,21 @@ Section Hole.
 End Hole.
 
 
+(* executable form of "value v of vertex child [name] is attached to a vertex whose DEPTH is within tol of d" *)
+Definition attachedb (h : hole) (name : nat) (d v tol : Q) : bool :=
+  match h_depth h with
+  | None => false
+  | Some dv =>
+      existsb (fun i =>
+        match onth dv i with
+        | Some dd => close dd d tol
+                     && existsb (fun kv => Nat.eqb (fst kv) name
+                                           && match onth (snd kv) i with Some x => Qeq_bool x v | None => false end)
+                                (h_vdata h)
+        | None => false
+        end) (seq 0 (length (h_verts h)))
+  end.
+
 (* ---------------- executable comparison ---------------- *)
 Definition vrow_eqb (a b : vrow) : bool :=
   let '(d1, p1, v1) := a in let '(d2, p2, v2) := b in oq_eqb d1 d2 && veqb p1 p2 && list_eqb oq_eqb v1 v2.
